@@ -110,6 +110,46 @@ def w_listen(item, rep):
         rep.part("registers", nodes=1)
 
 
+def w_coexist(item, rep):
+    """several node objects of different networks in one process (docs/network_docs/topology.rst, "2 separate networks" /
+    the hopping node): B gets other address bytes - assigned as new bytearrays or changed IN PLACE (the attributes are
+    documented as mutable bytearrays) - while A (built before) and C (built after) keep the defaults.  Every object's
+    registers and translations follow its OWN bytes."""
+    how, addrs, seed = item
+    sp, ss = seed_bytes(seed)
+    for a in addrs:
+        wA, A, rA = build(a, dict(prefix=None, suffix=None, multicast=True))
+        wB = World(horizon_ns=10 ** 15).activate()
+        B, rB = H.mk_node(wB, a)
+        if how == "assign":
+            B.address_prefix = bytearray([sp])
+            B.address_suffix = bytearray(ss)
+        else:
+            B.address_prefix[0] = sp
+            B.address_suffix[:] = bytes(ss)
+        B.node_address = a
+        wC, C, rC = build(a, dict(prefix=None, suffix=None, multicast=True))
+        A.node_address = a  # (what a hopping application does when it comes back to network A)
+        rep.case()
+        rep.transitions += 3
+        rep.traces += 1
+        for nm, node, r, pre, suf in (("A (defaults, built before)", A, rA, R.DEFAULT_PREFIX, R.DEFAULT_SUFFIX), ("B (own bytes)", B, rB, sp, tuple(ss)),
+                                      ("C (defaults, built after)", C, rC, R.DEFAULT_PREFIX, R.DEFAULT_SUFFIX)):
+            got = [r.pipe_addr(p) for p in range(6)]
+            want = [R.pipe_address(a, p, pre, suf, True) for p in range(6)]
+            child = a | (3 << (3 * R.level(a))) if R.level(a) < 4 else R.parent(a)
+            tn, tp, _ = node._logi_2_phys(child, TX_NORMAL)
+            tx_got, tx_want = bytes(node._pipe_address(tn, tp)), R.pipe_address(tn, tp, pre, suf, True)
+            if got != want or tx_got != tx_want:
+                rep.violation("%s/address-bytes-leak:%s:%s" % (PID, how, nm[0]),
+                              "node 0o%o of network %s: pipes %s, its own bytes give %s; frames for 0o%o go to %s, its own bytes give %s"
+                              % (a, nm, [x.hex() for x in got], [x.hex() for x in want], child, tx_got.hex(), tx_want.hex()),
+                              {"part": "coexist", "how": how, "node": a, "seed": seed})
+                break
+        rep.outcome("coexist:%s:L%d" % (how, R.level(a)))
+    rep.part("coexist", nodes=len(addrs))
+
+
 def check_listen_map(cfg, rep):
     """injectivity / level sharing over all 781 x 6 (node, pipe)"""
     name = cfg["name"]
@@ -254,6 +294,8 @@ def w_hops(item, rep):
         rep.notes["B|%s|%d" % (name, n)] = row
         if cfg["multicast"]:
             multicast_checks(cfg, w, node, r, n, rep)
+            if on_air:
+                alternate_checks(cfg, w, node, r, n, row, rep)
         if cfg["multicast"] and cfg["prefix"] is None:
             # the next hop of a unicast frame must not depend on the (public) multicast_level override
             for override in sorted({(ln + 1) % 5, 0 if ln else 3}):
@@ -287,6 +329,51 @@ def w_hops(item, rep):
                                       {"part": "hop-mclevel", "cfg": cfg, "node": n, "dst": d, "override": override})
                         break
                 rep.outcome("hop:multicast-level-override")
+
+
+def alternate_checks(cfg, w, node, r, n, row, rep):
+    """histories: a multicast to every level followed by a unicast to every distinct next hop of the node, and that
+    unicast followed by the multicast again - the address of a transmission does not depend on the previous one"""
+    name = cfg["name"]
+    lv = LEVELADDR.get(name)
+    if not lv or len(lv) != 5:
+        return
+    ln = R.level(n)
+    firsts = {}
+    for k, d in enumerate(ADDRS):
+        if d != n and row[k] not in (-1, n) and row[k] not in firsts:
+            firsts[row[k]] = (k, d)  # one destination per distinct next hop
+    for L in (0, 1, 2, 3, 4):
+        for hop, (k, d) in sorted(firsts.items()):
+            data = {"part": "alternate", "cfg": cfg, "node": n, "level": L, "dst": d}
+            try:
+                node.multicast(b"mc", 1, L)
+                addr, _ = probe_air(w, node, r, d)
+                del w.airlog[:]
+                node.multicast(b"mc", 1, L)
+                pk = [p for p in w.airlog if not p.is_ack and p.src is r]
+            except (HarnessError, Abort):
+                raise
+            except Exception as e:  # noqa
+                rep.violation("%s/raises-%s:alternate" % (PID, type(e).__name__), "multicast(level=%d) / write to 0o%o at 0o%o raised %r" % (L, d, n, e), data)
+                continue
+            while len(node.queue):
+                node.queue.dequeue()
+            rep.case()
+            rep.transitions += 3
+            rep.traces += 1
+            ls = LISTEN[name].get(bytes(addr), []) if addr is not None else []
+            got = ls[0][0] if len(ls) == 1 and ls[0][1] != 0 else -1
+            if got != hop:
+                rep.violation("%s/hop-after-multicast:L%d:%s" % (PID, ln, R.relation(n, d)),
+                              "node 0o%o right after multicast(level=%d) sends frames for 0o%o to %s, before that to node 0o%o"
+                              % (n, L, d, None if addr is None else bytes(addr).hex(), hop), data)
+            if pk and pk[0].addr != lv[L]:
+                rep.violation("%s/multicast-after-unicast:L%d" % (PID, L),
+                              "node 0o%o right after a unicast via 0o%o: multicast(level=%d) was transmitted to %s, level %d listens on %s"
+                              % (n, hop, L, pk[0].addr.hex(), L, lv[L].hex()), data)
+            rep.outcome("alternate:L%d" % L)
+    rep.part("alternate", nodes=1)
 
 
 def multicast_checks(cfg, w, node, r, n, rep):
@@ -397,6 +484,9 @@ def run(tier, seed, rep, only=None):
         pmap(w_listen, [(cfg, ch) for ch in chunks(ADDRS, 28)], rep)
         check_listen_map(cfg, rep)
         rep.states += 781
+    if not only:
+        co = [a for a in ADDRS if a in (0, 0o1, 0o5, 0o23, 0o45, 0o123, 0o345, 0o1234, 0o5432)] if tier == "quick" else list(ADDRS)
+        pmap(w_coexist, [(how, ch, seed) for how in ("assign", "inplace") for ch in chunks(co, 60)], rep)
     # heavy nodes (on-air) first for load balance
     order = sorted(ADDRS, key=lambda a: (0 if (air == "all" or a in air) else 1, a))
     items = []
@@ -429,7 +519,7 @@ def run(tier, seed, rep, only=None):
                "all 781 x 6 (node, pipe): injective on pipes 1-5, pipe 0 = exactly one level (allow_multicast) / unique (off). "
                "multicast(level=None,0..4) from every node (allow_multicast on): first packet's address == that level's pipe-0 address. "
                "6 configurations = {default, documentation's alternative, seed-derived 7 distinct bytes} x allow_multicast on/off; in the default configuration every node's decisions are repeated with two multicast_level overrides (must not change any next hop). "
-               "non-trivial = distinct (configuration, node, next hop) edges used.",
+               "non-trivial = distinct (configuration, node, next hop) edges used. Histories on the on-air nodes: multicast to each level, then a unicast to each distinct next hop, then the multicast again (addresses do not depend on the previous transmission). Coexisting networks: three node objects in one process (defaults / own address bytes assigned or changed in place / defaults), each following its own bytes.",
         bounds=dict(addresses=781, states_per_config=609180, configurations=[c["name"] for c in cfgs], on_air_nodes=n_air,
                     multicast_levels="None,0..4"),
         trusted_base=["vf/sim.py (register file, address registers, air)", "vf/ref/route.py (tree model from docs/network_docs/topology.rst)"],
@@ -468,6 +558,11 @@ def replay(data):
         # re-run the whole row of this node (own level, then the overrides)
         global ADDRS_REPLAY
         w_hops((cfg, [r["node"]], set()), rep)
+    elif r["part"] == "coexist":
+        w_coexist((r["how"], [r["node"]], r["seed"]), rep)
+    elif r["part"] == "alternate":
+        # re-run the whole row of this node on the air, then the alternating histories
+        w_hops((cfg, [r["node"]], {r["node"]}), rep)
     elif r["part"] == "multicast":
         w, node, rr = build(r["node"], cfg)
         multicast_checks(cfg, w, node, rr, r["node"], rep)
